@@ -1,1 +1,228 @@
-def main : IO Unit := IO.println "stub"
+import Nsq.Model.Line
+import Nsq.Model.Gate
+import Nsq.Model.GateRegex
+/-!
+Driver for engine `gate` (property C11). One op per line in, one canonical line out.
+
+  cfg <tlsreq 0|1|2> <policy-hex> <cert 0|1> <authAddrs> <max-body-size> <max-msg-size>   new nsqd: resets broker and connections
+  http <tlsListener 0|1>                                        the HTTP TLS gate of the current config
+  https <cert>                                                  a request on the HTTPS listener with this client certificate
+  conn <id>                                                     a fresh connection
+  c <id> <now> <ans> <CMD> …                                    one command on a connection
+  cx <id> <now> <ans> <CMD> …                                   one command, then the client disconnects
+  x <id>                                                        the client disconnects
+  ia <grants> <topic-hex> <chan-hex>                            State.IsAllowed
+  rx <pat-hex> <text-hex>                                       regexp family used by the harness
+
+  ans    := E | A:<ttl>:<identity-hex>:<url-hex>:<grants>
+  grants := ~ | grant(;grant)*         grant := <topic-hex>/<list>/<list>      list := ~ | hex(,hex)*
+-/
+open Nsq Nsq.Line Nsq.Model.Gate
+
+def unhexS (s : String) : Option String := (unhex s).map bytesToString
+
+def hexS (s : String) : String := hex (s.toList.map (fun c => c.toNat.toUInt8))
+
+def parseList (s : String) : Option (List String) :=
+  if s = "~" then some [] else (s.splitOn ",").mapM unhexS
+
+def parseGrant (s : String) : Option Grant :=
+  match s.splitOn "/" with
+  | [t, cs, ps] =>
+    match unhexS t, parseList cs, parseList ps with
+    | some t, some cs, some ps => some { topic := t, channels := cs, perms := ps }
+    | _, _, _ => none
+  | _ => none
+
+def parseGrants (s : String) : Option (List Grant) :=
+  if s = "~" then some [] else (s.splitOn ";").mapM parseGrant
+
+/-- `none` = malformed; `some none` = the server fails; `some (some r)` = a 200 answer -/
+def parseAns (s : String) : Option (Option Resp) :=
+  if s = "E" then some none else
+  match s.splitOn ":" with
+  | ["A", ttl, idn, url, gs] =>
+    match ttl.toInt?, unhexS idn, unhexS url, parseGrants gs with
+    | some ttl, some idn, some url, some gs => some (some { ttl := ttl, grants := gs, identity := idn, url := url })
+    | _, _, _, _ => none
+  | _ => none
+
+def parseBool (s : String) : Option Bool :=
+  if s = "1" then some true else if s = "0" then some false else none
+
+def parseCert (s : String) : Option ClientCert :=
+  match s.splitOn ":" with
+  | ["nohs"] => some .noHandshake
+  | ["nocert"] => some .noCert
+  | ["untrusted", cn] => (unhexS cn).map .untrusted
+  | ["trusted", cn] => (unhexS cn).map .trusted
+  | _ => none
+
+def parseInts (s : String) : Option (List Int) :=
+  if s = "~" then some [] else (s.splitOn ",").mapM (·.toInt?)
+
+def parseCmd (w : List String) : Option Cmd :=
+  match w with
+  | ["IDENTIFY", bodyOk, fn, tlsv1, hbOff, cert] =>
+    match parseBool bodyOk, parseBool fn, parseBool tlsv1, parseBool hbOff, parseCert cert with
+    | some a, some b, some c, some d, some e =>
+      some (.identify { bodyOk := a, featureNegotiation := b, tlsv1 := c, hbOff := d, cert := e })
+    | _, _, _, _, _ => none
+  | ["AUTH", args, size, secret] =>
+    match parseList args, size.toInt?, unhexS secret with
+    | some a, some n, some s => some (.auth a n s)
+    | _, _, _ => none
+  | ["PUB", args, size] =>
+    match parseList args, size.toInt? with
+    | some a, some n => some (.pub a n)
+    | _, _ => none
+  | ["DPUB", args, size] =>
+    match parseList args, size.toInt? with
+    | some a, some n => some (.dpub a n)
+    | _, _ => none
+  | ["MPUB", args, size, count, sizes] =>
+    match parseList args, size.toInt?, count.toInt?, parseInts sizes with
+    | some a, some n, some k, some ss => some (.mpub a n k ss)
+    | _, _, _, _ => none
+  | ["SUB", args] => (parseList args).map .sub
+  | ["RDY", args] => (parseList args).map .rdy
+  | ["FIN", args] => (parseList args).map .fin
+  | ["REQ", args] => (parseList args).map .req
+  | ["TOUCH", args] => (parseList args).map .touch
+  | ["CLS"] => some .cls
+  | ["NOP"] => some .nop
+  | ["UNK", name] => (unhexS name).map .unknown
+  | _ => none
+
+def showReply : Reply → String
+  | .ok => "OK"
+  | .closeWait => "CLOSE_WAIT"
+  | .identify t a => s!"ident:tls={if t then 1 else 0}:auth={if a then 1 else 0}"
+  | .auth i u n => s!"auth:{hexS i}:{hexS u}:{n}"
+  | .err code fatal => s!"{code}:{if fatal then "fatal" else "nonfatal"}"
+
+def showState : CState → String
+  | .init => "init" | .subscribed => "sub" | .closing => "closing"
+
+def showQuery : Option Request → String
+  | none => "none"
+  | some q => s!"{if q.tls then 1 else 0}:{hexS q.cn}:{hexS q.secret}"
+
+def showChan (c : Chan) : String := s!"{c.name}:{c.clients.length}"
+
+def showTopic (t : Topic) : String :=
+  let cs := (t.chans.map showChan).mergeSort (fun a b => a ≤ b)
+  s!"{t.name}({t.msgs.length})[{",".intercalate cs}]"
+
+def showBroker (b : Broker) : String :=
+  if b.isEmpty then "-" else ";".intercalate ((b.map showTopic).mergeSort (fun a b => a ≤ b))
+
+def b01 (b : Bool) : String := if b then "1" else "0"
+
+/-- FIN / REQ / TOUCH of a message that is not in flight (the harness never has one in flight) -/
+def driverExt : Ext :=
+  { chanCmd := fun name _ _ b => (b, [.err (s!"E_{name}_FAILED") false]) }
+
+structure DState where
+  cfg : Option Config
+  broker : Broker
+  conns : List (Nat × Conn)
+
+def defaultOpts (tr : TlsReq) (pol : String) (cert : Bool) (auth : Nat) (maxBody maxMsg : Int) : Options :=
+  { tlsRequired := tr, clientAuthPolicy := pol, hasCert := cert, authAddrs := auth,
+    maxBodySize := maxBody, maxMsgSize := maxMsg, maxReqTimeoutNs := 3600 * 1000000000 }
+
+def lookupConn (id : Nat) : List (Nat × Conn) → Option Conn
+  | [] => none
+  | (k, c) :: r => if k = id then some c else lookupConn id r
+
+def setConn (id : Nat) (c : Conn) (l : List (Nat × Conn)) : List (Nat × Conn) :=
+  (id, c) :: l.filter (fun p => p.1 ≠ id)
+
+def showPol : CertPolicy → String
+  | .none => "none" | .require => "require" | .requireVerify => "verify"
+
+def showReq : TlsReq → String
+  | .no => "0" | .exceptHTTP => "1" | .yes => "2"
+
+def stepLine (st : DState) (line : String) : DState × String :=
+  match words line with
+  | ["cfg", tr, pol, cert, auth, maxBody, maxMsg] =>
+    let tr? : Option TlsReq := if tr = "0" then some .no else if tr = "1" then some .exceptHTTP
+      else if tr = "2" then some .yes else none
+    match tr?, unhexS pol, parseBool cert, auth.toNat?, maxBody.toInt?, maxMsg.toInt? with
+    | some tr, some pol, some cert, some auth, some maxBody, some maxMsg =>
+      match mkConfig (defaultOpts tr pol cert auth maxBody maxMsg) with
+      | none => ({ cfg := none, broker := [], conns := [] }, "cfg err")
+      | some cfg =>
+        ({ cfg := some cfg, broker := [], conns := [] },
+         s!"cfg ok eff={showReq cfg.tlsRequired} pol={showPol cfg.certPolicy} tls={b01 cfg.hasTls} auth={b01 cfg.authEnabled}")
+    | _, _, _, _, _, _ => (st, "bad-op")
+  | ["http", l] =>
+    match st.cfg, parseBool l with
+    | some cfg, some l => (st, if httpGate cfg l = .forbidden403 then "403" else "routed")
+    | _, _ => (st, "bad-op")
+  | ["https", cert] =>
+    match st.cfg, parseCert cert with
+    | some cfg, some cert =>
+      (st, match handshake cfg.certPolicy cert with
+           | none => "hsfail"
+           | some _ => if httpGate cfg true = .forbidden403 then "403" else "routed")
+    | _, _ => (st, "bad-op")
+  | ["conn", id] =>
+    match id.toNat? with
+    | some id => ({ st with conns := setConn id (Conn.fresh id) st.conns }, "conn")
+    | none => (st, "bad-op")
+  | "c" :: id :: now :: ans :: cmd =>
+    match st.cfg, id.toNat?, now.toInt?, parseAns ans, parseCmd cmd with
+    | some cfg, some id, some now, some ans, some cmd =>
+      match lookupConn id st.conns with
+      | none => (st, "bad-op")
+      | some c =>
+        let r := step driverExt cfg Nsq.Model.GateRegex.matcher (fun _ => ans) now c st.broker cmd
+        let a := after r
+        ({ st with broker := a.broker, conns := setConn id a.conn st.conns },
+         s!"{"|".intercalate (r.replies.map showReply)} close={b01 r.close} q={showQuery r.query} tls={b01 r.conn.tls} st={showState r.conn.state} authed={b01 (hasAuthorizations r.conn)} broker={showBroker a.broker}")
+    | _, _, _, _, _ => (st, "bad-op")
+  | "cx" :: id :: now :: ans :: cmd =>
+    match st.cfg, id.toNat?, now.toInt?, parseAns ans, parseCmd cmd with
+    | some cfg, some id, some now, some ans, some cmd =>
+      match lookupConn id st.conns with
+      | none => (st, "bad-op")
+      | some c =>
+        let r := step driverExt cfg Nsq.Model.GateRegex.matcher (fun _ => ans) now c st.broker cmd
+        let d := disconnect (after r).conn (after r).broker
+        ({ st with broker := d.2, conns := setConn id d.1 st.conns },
+         s!"{"|".intercalate (r.replies.map showReply)} close={b01 r.close} q={showQuery r.query} tls={b01 r.conn.tls} st={showState r.conn.state} authed={b01 (hasAuthorizations r.conn)} broker={showBroker d.2}")
+    | _, _, _, _, _ => (st, "bad-op")
+  | ["x", id] =>
+    match id.toNat? with
+    | some id =>
+      match lookupConn id st.conns with
+      | none => (st, "bad-op")
+      | some c =>
+        let d := disconnect c st.broker
+        ({ st with broker := d.2, conns := setConn id d.1 st.conns }, s!"x broker={showBroker d.2}")
+    | none => (st, "bad-op")
+  | ["ia", gs, t, c] =>
+    match parseGrants gs, unhexS t, unhexS c with
+    | some gs, some t, some c => (st, b01 (isAllowed Nsq.Model.GateRegex.matcher t c gs))
+    | _, _, _ => (st, "bad-op")
+  | ["rx", p, t] =>
+    match unhexS p, unhexS t with
+    | some p, some t =>
+      (st, s!"c={b01 (Nsq.Model.GateRegex.compiles p)} m={b01 (Nsq.Model.GateRegex.isMatch p t)}")
+    | _, _ => (st, "bad-op")
+  | _ => (st, "bad-op")
+
+partial def loop (h : IO.FS.Stream) (out : IO.FS.Stream) (st : DState) : IO Unit := do
+  let line ← h.getLine
+  if line.isEmpty then return ()
+  let (st', o) := stepLine st (line.dropRightWhile (· == '\n'))
+  out.putStrLn o
+  loop h out st'
+
+def main : IO Unit := do
+  let out ← IO.getStdout
+  loop (← IO.getStdin) out { cfg := none, broker := [], conns := [] }
+  out.flush
